@@ -47,8 +47,10 @@ def run(out, tier, seed):
         else:
             one.append(fwd if k % 2 == 0 else back)
     # every seed by itself: warm, fresh and fresh-asked-in-reverse must agree (no dependence on query order or instance)
-    one += [{"hist": [{"op": {"k": "seed", "f": 0, "i": 0, "x": ""}, "files": w["files"], "dep": True, "dup": False, "one": shape, "batched": False}], "check_seed": True}
-            for w in allseeds for shape in (False, True)]     # two packages / all modules in one package (import cycles resolve only there)
+    one += [{"hist": [{"op": {"k": "seed", "f": 0, "i": 0, "x": ""}, "files": w["files"], "dep": True, "dup": False, "one": shape, "ext": ext, "batched": False}], "check_seed": True}
+            for w in allseeds for shape, ext in ((False, False), (True, False), (False, True))]
+    # two packages / all modules in one package (import cycles resolve only there) / the library a downloaded, non-local
+    # dependency (its last module under test/): each also delivered in stages (histcheck `staged`)
     s1 = run_hist(out, one, seed, "single")
     del ws_common.LEX_FAILS[:]      # a lexer failure on a seed is C10's to report
     out.cov["traces_validated_against_impl"] += s1["histories"]
